@@ -2,18 +2,20 @@
 // in the Go files of /repo that are part of a normal (non-test, tags verif and wasm off) build.
 //
 // Output coq/gen/Gen_IOSites.v:
-//   grol_file_extension : list N            bytes of extensions.GrolFileExtension
-//   repl_autosave_file  : list N            bytes of repl.AutoSaveFile (resolved through the constant it names)
-//   io_sites            : list (string * string * string * string)
-//        (package directory, enclosing function, "<import path>.<Name>", use)
-//        use = "ref"                       the name is mentioned without being called (os.Stdin, *exec.Cmd, ...)
-//            | "call(<a1>,<a2>,...)"       a call; every argument is classified
-//                 lit:<s>                  string literal
-//                 const:<pkg>.<N>=<s>      named string constant and its value
-//                 sanitized                a variable whose only assignment in the function is `v, err := sanitizeFileName(...)`
-//                 other:<source text>      anything else
-//   third_party_imports : list (string * string)   (package directory, import path) for imports outside the
-//                                                   standard library and outside grol.io/grol
+//
+//	grol_file_extension : list N            bytes of extensions.GrolFileExtension
+//	repl_autosave_file  : list N            bytes of repl.AutoSaveFile (resolved through the constant it names)
+//	io_sites            : list (string * string * string * string)
+//	     (package directory, enclosing function, "<import path>.<Name>", use)
+//	     use = "ref"                       the name is mentioned without being called (os.Stdin, *exec.Cmd, ...)
+//	         | "call(<a1>,<a2>,...)"       a call; every argument is classified
+//	              lit:<s>                  string literal
+//	              const:<pkg>.<N>=<s>      named string constant and its value
+//	              sanitized                a variable whose only assignment in the function is `v, err := sanitizeFileName(...)`
+//	              other:<source text>      anything else
+//	third_party_imports : list (string * string)   (package directory, import path) for imports outside the
+//	                                                standard library and outside grol.io/grol
+//
 // Only syntax is read (go/ast); a package is recognised through the import name of the file.
 // A dot-import or blank import of a watched package is reported as an entry of its own.
 package main
